@@ -689,11 +689,18 @@ func TestVerifC19World(t *testing.T) {
 				before := countType(tee.Events(), pb.TraceEvent_PUBLISH_MESSAGE)
 				var err error
 				k := 1
+				var batchLocal []bool
 				if batch {
 					var mb MessageBatch
 					k = c.Range(1, 3)
 					for i := 0; i < k; i++ {
-						if e := h.AddToBatch(context.Background(), &mb, []byte(fmt.Sprintf("%s/%d", data, i))); e != nil {
+						var po []PubOpt
+						loc := c.Chance(0.3)
+						if loc {
+							po = append(po, WithLocalPublication(true))
+						}
+						batchLocal = append(batchLocal, loc)
+						if e := h.AddToBatch(context.Background(), &mb, []byte(fmt.Sprintf("%s/%d", data, i)), po...); e != nil {
 							err = e
 						}
 					}
@@ -720,13 +727,18 @@ func TestVerifC19World(t *testing.T) {
 						"%d publication attempts on %q produced %d PUBLISH_MESSAGE events", k, tn, after-before)
 					return
 				}
+				nth := -1
 				for _, e := range evs[at:] {
 					if e.GetType() != pb.TraceEvent_PUBLISH_MESSAGE {
 						continue
 					}
+					nth++
 					if e.GetPublishMessage().GetTopic() != tn {
 						fail(map[string]string{"check": "publish_event_topic"}, "PUBLISH_MESSAGE names topic %q, published on %q", e.GetPublishMessage().GetTopic(), tn)
 						return
+					}
+					if nth < len(batchLocal) && batchLocal[nth] {
+						continue // stays in this process: no recipients to account for
 					}
 					if err == nil && !local && !strings.HasPrefix(data, "rej") && !strings.HasPrefix(data, "ign") {
 						pubs = append(pubs, &c19Pub{id: string(e.GetPublishMessage().GetMessageID()), topic: tn, at: at, rcpt: rc})
